@@ -3,35 +3,9 @@
     ok r=<a,b|-> [ev=<e;e|->] [pend=<p;p|->]      |  fail [# message]   |  nopending
   Everything after " # " is a comment and never compared.
 -/
-import Axelar.Basic.Bytes
+import Axelar.Model.Trace
 namespace Axelar.Driver
 open Axelar
-
-/-- a contract event: emitter address, identifier, further topics, data items -/
-structure Event where
-  addr : Bytes
-  name : String
-  topics : List Bytes
-  data : List Bytes
-  deriving Repr, DecidableEq, Inhabited
-
-/-- a registered asynchronous call as the harness canonicalises it -/
-structure PendDesc where
-  id : Nat
-  to : Bytes
-  func : String
-  egld : Nat
-  esdt : List (String × Nat × Nat)
-  args : List Bytes
-  deriving Repr, DecidableEq, Inhabited
-
-inductive Outcome
-  | ok (results : List Bytes) (events : List Event) (pend : List PendDesc)
-  | okNat (n : Nat)          -- `bal` lines: decimal
-  | okPlain                   -- setup lines
-  | fail
-  | nopending
-  deriving Repr, DecidableEq, Inhabited
 
 def hexOrDot (b : Bytes) : String := if b.isEmpty then "." else toHex b
 
@@ -47,7 +21,7 @@ def fmtEvent (e : Event) : String :=
 def fmtPend (p : PendDesc) : String :=
   s!"{p.id}={toHex p.to}:{if p.func.isEmpty then "-" else p.func}:{p.egld}:{fmtEsdt p.esdt}:{fmtArgs p.args}"
 
-def Outcome.fmt : Outcome → String
+def fmtOutcome : Outcome → String
   | .ok r ev pd =>
     let evs := if ev.isEmpty then "-" else ";".intercalate (ev.map fmtEvent)
     let pds := if pd.isEmpty then "-" else ";".intercalate (pd.map fmtPend)
